@@ -67,6 +67,7 @@ structure Src where
   gens : List Gen := []
   deadline : Option Int := none
   treg : Option (Tok × Nat) := none      -- `Timer.registration`: token and wheel counter
+  tregd : Bool := false                  -- `Timer.registered`
   queue : List Nat := []                 -- mpsc queue
   senders : Nat := 0                     -- live sender handles
   sync : Bool := false                   -- `SyncSender` (one shared ping-on-drop) vs `Sender`
@@ -128,6 +129,10 @@ structure Stats where
   deriving DecidableEq, Repr
 
 inductive Obs
+  | exec (o : COp)                         -- echo of an operation about to be executed (`> …`)
+  | top (o : Op)                           -- echo of `script` / `idlescript` / `dispatch`
+  | pe (k : Nat)                           -- `process_events` of source `k` begins
+  | peret (k : Nat) (r : Option PA)        -- … and returns (`none` = `Err`)
   | opRes (o : COp) (r : OpRes)
   | ins (k : Nat) (r : InsRes)
   | cb (k : Nat) (p : Payload)
@@ -280,7 +285,30 @@ def customLoop (k : Nat) (kind : RegKind) (fail : Option Nat) (body : Nat → Fa
       emit (.reg k kind j false)
       throwErr e
 
+/-- roll back sub-registrations `j-1 … 0` (results logged, errors ignored) -/
+def customRollback (k : Nat) : Nat → M Unit
+  | 0 => pure ()
+  | j + 1 => do
+    let r ← catchErr (genUnregister k j)
+    emit (.reg k .unregister j (match r with | .ok _ => true | .error _ => false))
+    customRollback k j
+
+/-- `register` of the instrumented composite source: a failing sub-registration rolls the earlier ones back -/
+def customRegister (k : Nat) (fail : Option Nat) : Nat → Nat → Factory → M Unit
+  | 0, _, _ => pure ()
+  | n + 1, j, f => do
+    let r ← (if fail == some j then pure (Except.error (Err.io .other)) else catchErr (genRegister k j f))
+    match r with
+    | .ok f' =>
+      emit (.reg k .register j true)
+      customRegister k fail n (j + 1) f'
+    | .error e =>
+      emit (.reg k .register j false)
+      customRollback k j
+      throwErr e
+
 def timerUnregister (k : Nat) : M Unit := do
+  modSrc k fun s => { s with tregd := false }
   match ← getSrc? k with
   | some s =>
     match s.treg with
@@ -291,6 +319,7 @@ def timerUnregister (k : Nat) : M Unit := do
   | none => pure ()
 
 def timerRegister (k : Nat) (f : Factory) : M Unit := do
+  modSrc k fun s => { s with tregd := true }
   match ← getSrc? k with
   | some s =>
     match s.deadline with
@@ -309,7 +338,7 @@ def srcRegister (k : Nat) (f : Factory) : M Unit := do
     match s.kind with
     | .ping | .chan | .gen => do let _ ← genRegister k 0 f
     | .timer => timerRegister k f
-    | .custom => do let _ ← customLoop k .register s.plan.regFail (genRegister k) s.gens.length 0 f
+    | .custom => customRegister k s.plan.regFail s.gens.length 0 f
 
 def srcReregister (k : Nat) (f : Factory) : M Unit := do
   match ← getSrc? k with
@@ -317,7 +346,7 @@ def srcReregister (k : Nat) (f : Factory) : M Unit := do
   | some s =>
     match s.kind with
     | .ping | .chan | .gen => do let _ ← genReregister k 0 f
-    | .timer => do timerUnregister k; timerRegister k f
+    | .timer => if s.tregd then do timerUnregister k; timerRegister k f else pure ()
     | .custom => do let _ ← customLoop k .reregister s.plan.reregFail (genReregister k) s.gens.length 0 f
 
 def srcUnregister (k : Nat) : M Unit := do
@@ -359,9 +388,12 @@ def dReregister (k : Nat) (tok : Tok) : M Bool := do
 /-- `unregister`: `Ok(false)` when the dispatcher is running (deferred) -/
 def dUnregister (k : Nat) (tok : Tok) : M Bool := do
   if (← get).running == some k then return false
-  srcUnregister k
+  let r ← catchErr (srcUnregister k)
+  -- the lifecycle entry goes even when the source failed to unregister cleanly
   if ← isLife k then modify fun s => { s with life := lifeUnregister s.life tok }
-  return true
+  match r with
+  | .ok _ => return true
+  | .error e => throwErr e
 
 /-! ### reference counting of dispatchers: who still holds an `Rc` -/
 
@@ -553,6 +585,7 @@ def execC' (o : COp) : M Unit := do
 
 /-- a source id names one object for the whole case -/
 def execC (o : COp) : M Unit := do
+  emit (.exec o)
   match isNew o with
   | some k =>
     if (alookup (← get).srcs k).isSome then emit (.opRes o .exists) else execC' o
@@ -648,7 +681,10 @@ def processEventsInner (k : Nat) (ev : Event) : M PA := do
     | .timer =>
       match s.treg, s.deadline with
       | some (t, c), some d =>
-        if t != ev.key then pure .Continue else do
+        if t != ev.key then pure .Continue
+        -- an expiry collected before the timer was re-armed is stale: the current arming is still in the wheel
+        else if (← get).wheel.heap.any (·.counter == c) then pure .Continue
+        else do
           let r ← runCb k (.deadline d)
           match r with
           | .toInstant i =>
@@ -670,11 +706,17 @@ def processEventsInner (k : Nat) (ev : Event) : M PA := do
 /-- `RefCell<DispatcherInner>::process_events`: the cell is mutably borrowed for the duration -/
 def processEvents (k : Nat) (ev : Event) : M PA := do
   modify fun s => { s with running := some k }
+  emit (.pe k)
   let r ← tryCatch (do let a ← processEventsInner k ev; pure (Except.ok a))
-            (fun e => do modify (fun s => { s with running := none }); throw e)
+            (fun e => do
+              modify (fun s => { s with running := none })
+              match e with
+              | .err _ => emit (.peret k none)
+              | .panic _ => pure ()
+              throw e)
   modify fun s => { s with running := none }
   match r with
-  | .ok a => pure a
+  | .ok a => do emit (.peret k (some a)); pure a
   | .error (e : Exc) => throw e
 
 /-! ### `dispatch_events` / `dispatch_idles` -/
@@ -700,25 +742,23 @@ def beforeHandle (evs : List Event) (tok : Tok) : M Unit := do
   | none => throwPanic .unreachable
   | some k => emit (.bhe k (evs.filter fun e => sameSource e.key tok))
 
-/-- one iteration of the event loop of `dispatch_events` -/
-def processOne (ev : Event) : M Unit := do
+/-- one iteration of the event loop of `dispatch_events`; returns the error of this event, if any
+    (the batch goes on, the first error is reported at the end) -/
+def processOne (ev : Event) : M (Option Err) := do
   let reg := forgetSub ev.key
   match slotDisp (← get) reg with
-  | none => pure ()
+  | none => pure none
   | some k =>
     modify fun s => { s with inflight := some k }
-    let cleanup : M Unit := do
-      modify fun s => { s with inflight := none }
-      maybeDrop k
     let r ← catchErr (processEvents k ev)
     -- the pending action is consumed whatever the outcome
     let p := (← get).pending
     modify fun s => { s with pending := .Continue }
-    match r with
-    | .error e => do cleanup; throwErr e
-    | .ok ret0 =>
-      let ret := if ret0 == .Continue then p else ret0
-      let post ← catchErr (do
+    let outcome ← catchErr (do
+      match r with
+      | .error e => throwErr e
+      | .ok ret0 =>
+        let ret := if ret0 == .Continue then p else ret0
         match ret with
         | .Reregister => do let _ ← dReregister k reg
         | .Disable => do let _ ← dUnregister k reg
@@ -726,14 +766,16 @@ def processOne (ev : Event) : M Unit := do
           if (Slots.get (← get).slots reg).isSome then
             modify fun s => { s with slots := setOcc s.slots reg.id none }
         | .Continue => pure ())
-      match post with
-      | .error e => do cleanup; throwErr e
-      | .ok _ =>
-        let gone := match Slots.get (← get).slots reg with
-          | some sl => sl.occ.isNone
-          | none => true
-        if gone then do let _ ← catchErr (dUnregister k reg)
-        cleanup
+    -- the source has been removed from within its callback: unregister it (always checked)
+    let gone := match Slots.get (← get).slots reg with
+      | some sl => sl.occ.isNone
+      | none => true
+    if gone then do let _ ← catchErr (dUnregister k reg)
+    modify fun s => { s with inflight := none }
+    maybeDrop k
+    match outcome with
+    | .ok _ => pure none
+    | .error e => pure (some e)
 
 def dispatchEvents : M Unit := do
   for tok in (← get).life do beforeSleep tok
@@ -747,7 +789,13 @@ def dispatchEvents : M Unit := do
   for tok in (← get).life do beforeHandle polled tok
   let batch := (← get).synth ++ polled
   modify fun s => { s with synth := [] }
-  for ev in batch do processOne ev
+  let mut first : Option Err := none
+  for ev in batch do
+    let e ← processOne ev
+    if first.isNone then first := e
+  match first with
+  | some e => throwErr e
+  | none => pure ()
 
 def dispatchIdles : M Unit := do
   let q := (← get).idles
@@ -781,10 +829,14 @@ def snapshot : M Unit := do
 
 def execTop (o : Op) : M Unit := do
   match o with
-  | .script k n sc => modify fun s => { s with scripts := ((k, n), sc) :: s.scripts.filter (·.1 != (k, n)) }
-  | .idleScript i sc => modify fun s => { s with idleScripts := aset s.idleScripts i sc }
+  | .script k n sc => do
+    emit (.top o)
+    modify fun s => { s with scripts := ((k, n), sc) :: s.scripts.filter (·.1 != (k, n)) }
+  | .idleScript i sc => do
+    emit (.top o)
+    modify fun s => { s with idleScripts := aset s.idleScripts i sc }
   | .c o => do execC o; snapshot
-  | .dispatch => do dispatch; snapshot
+  | .dispatch => do emit (.top o); dispatch; snapshot
 
 /-- One top-level operation; a panic aborts the case (the harness leaks the loop). -/
 def step (s : St) (o : Op) : St :=
